@@ -226,6 +226,38 @@ impl MainState {
                             if j < k { assert(admitted(o, mj, me, src, chans, keys_opt, k, c)); }
                         }
                     }
+                    // channel map after this step, case by case
+                    if *join {
+                        assert(jdec(o, mj, me, src, chans, keys_opt, k));
+                        assert(state.channels@.contains_key(ck));
+                        assert(forall|c: String| c != ck ==> (state.channels@.contains_key(c) <==> pre_ch.contains_key(c)));
+                        assert(forall|c: String| c != ck && pre_ch.contains_key(c) ==> state.channels@[c] == pre_ch[c]);
+                        if *create {
+                            assert(!o.channels@.contains_key(ck));
+                            assert(fresh_channel(state.channels@[ck], me) && chan_wf(state.channels@[ck]));
+                        } else {
+                            assert(pre_ch.contains_key(ck) && pre_ch[ck] == o.channels@[ck]);
+                            assert(add_user_post(o.channels@[ck], state.channels@[ck], me) && chan_wf(state.channels@[ck]));
+                        }
+                    } else {
+                        assert(state.channels@ == pre_ch);
+                    }
+                    assert forall|c: String| admitted(o, mj, me, src, chans, keys_opt, k + 1, c) implies (#[trigger] state.channels@.contains_key(c))
+                        && (if o.channels@.contains_key(c) { add_user_post(o.channels@[c], state.channels@[c], me) } else { fresh_channel(state.channels@[c], me) })
+                        && chan_wf(state.channels@[c]) by {
+                        if c == ck && jdec(o, mj, me, src, chans, keys_opt, k) { }
+                        else {
+                            assert(admitted(o, mj, me, src, chans, keys_opt, k, c));
+                            assert(pre_ch.contains_key(c));
+                            if c != ck || !*join { assert(state.channels@[c] == pre_ch[c]); }
+                        }
+                    }
+                    assert forall|c: String| !admitted(o, mj, me, src, chans, keys_opt, k + 1, c) implies
+                        ((#[trigger] state.channels@.contains_key(c)) <==> o.channels@.contains_key(c)) && (o.channels@.contains_key(c) ==> state.channels@[c] == o.channels@[c]) by {
+                        assert(!admitted(o, mj, me, src, chans, keys_opt, k, c));
+                        assert(pre_ch.contains_key(c) <==> o.channels@.contains_key(c));
+                        if c == ck { assert(!*join); }
+                    }
                 }
 //@before ~// sending messages
         proof {
